@@ -342,7 +342,7 @@ theorem assignList_head (p : PropRec) (vs : List PyVal) :
   split
   · exact ⟨SameHead.refl p, rfl⟩
   · split
-    · exact ⟨⟨rfl, rfl, rfl⟩, rfl⟩
+    · exact ⟨SameHead.refl p, rfl⟩
     · split <;> exact ⟨⟨rfl, rfl, rfl⟩, rfl⟩
 
 theorem assignList_typed {p : PropRec} (vs : List PyVal) (h : Typed p) : Typed (assignList p vs).1 := by
@@ -352,7 +352,7 @@ theorem assignList_typed {p : PropRec} (vs : List PyVal) (h : Typed p) : Typed (
   · rename_i hchk
     have hall := (check_ok_list hchk).2
     split
-    · exact resize_typed _ h
+    · exact h
     · rename_i cells hconv
       split
       · exact resize_typed _ h
@@ -362,32 +362,31 @@ theorem assignList_typed {p : PropRec} (vs : List PyVal) (h : Typed p) : Typed (
           exact hok
         · rw [he] at hconv; cases hconv
 
-/-- result of `assignList`: success stores exactly the denoted cells; TypeError / IndexError leave
-the property untouched; the only errors that come after the resize are OverflowError and
-ValueError (embedded NUL) -/
+/-- result of `assignList`: success stores exactly the denoted cells; a refusal by the type check and
+an OverflowError of the conversion leave the property untouched; the only error that comes after
+the resize is h5py's ValueError for an embedded NUL -/
 theorem assignList_result (p : PropRec) (vs : List PyVal) :
     (∃ cells, assignList p vs = ({ p with vals := cells }, .ok ()) ∧ cellsOf? vs = some cells ∧
         checkNewValueTypes p.dtype (.list vs) = .ok ()) ∨
-    (∃ e, assignList p vs = (p, .error e) ∧ checkNewValueTypes p.dtype (.list vs) = .error e) ∨
-    (∃ e, (assignList p vs).2 = .error e ∧ (e = .overflowError ∨ e = .valueError) ∧
-        checkNewValueTypes p.dtype (.list vs) = .ok () ∧
-        (assignList p vs).1 = { p with vals := resize p.dtype p.vals vs.length }) := by
+    (∃ e, assignList p vs = (p, .error e) ∧
+        (checkNewValueTypes p.dtype (.list vs) = .error e ∨
+         (checkNewValueTypes p.dtype (.list vs) = .ok () ∧ e = .overflowError))) ∨
+    (assignList p vs = ({ p with vals := resize p.dtype p.vals vs.length }, .error .valueError) ∧
+        checkNewValueTypes p.dtype (.list vs) = .ok ()) := by
   cases hchk : checkNewValueTypes p.dtype (.list vs) with
   | error e =>
     right; left
-    exact ⟨e, by simp [assignList, hchk], rfl⟩
+    exact ⟨e, by simp [assignList, hchk], Or.inl rfl⟩
   | ok u =>
     have hall := (check_ok_list hchk).2
     rcases convertAll_spec hall with ⟨cs, hcs, hspec, _, _⟩ | ⟨he, _⟩
     · by_cases hn : cs.any Cell.hasNul = true
       · right; right
-        exact ⟨.valueError, by simp [assignList, hchk, hcs, hn], Or.inr rfl, rfl,
-          by simp [assignList, hchk, hcs, hn]⟩
+        exact ⟨by simp [assignList, hchk, hcs, hn], rfl⟩
       · left
         exact ⟨cs, by simp [assignList, hchk, hcs, hn], hspec, rfl⟩
-    · right; right
-      exact ⟨.overflowError, by simp [assignList, hchk, he], Or.inl rfl, rfl,
-        by simp [assignList, hchk, he]⟩
+    · right; left
+      exact ⟨.overflowError, by simp [assignList, hchk, he], Or.inr ⟨rfl, rfl⟩⟩
 
 /-- the four ways the `values` setter can go -/
 theorem setValues_cases (p : PropRec) (inp : Input) :
@@ -446,18 +445,19 @@ theorem setValues_typed {p : PropRec} {inp : Input} (hwf : inp.WF = true) (h : T
     simp at hwf
     exact hwf.2.2 c hc
 
-/-- a TypeError (or IndexError) of the `values` setter leaves the property exactly as it was -/
+/-- anything the `values` setter raises, except h5py's ValueError for an embedded NUL, leaves the
+property exactly as it was -/
 theorem setValues_refused {p : PropRec} {inp : Input} {e : Err} (h : (setValues p inp).2 = .error e)
-    (he : e = .typeError ∨ e = .indexError) : (setValues p inp).1 = p := by
+    (he : e ≠ .valueError) : (setValues p inp).1 = p := by
   rcases setValues_cases p inp with ⟨h', _⟩ | ⟨vs, h', _⟩ | ⟨e', h', _⟩ | ⟨dt, n, data, _, _, h'⟩
   · rw [h'] at h; simp at h
   · rw [h'] at h ⊢
-    rcases assignList_result p vs with ⟨cells, hres, _⟩ | ⟨e', hres, _⟩ | ⟨e', hres, hcase, _⟩
+    rcases assignList_result p vs with ⟨cells, hres, _⟩ | ⟨e', hres, _⟩ | ⟨hres, _⟩
     · rw [hres] at h; simp at h
     · rw [hres]
     · rw [hres] at h
-      cases h
-      rcases he with rfl | rfl <;> simp at hcase
+      simp at h
+      exact absurd h.symm he
   · rw [h']
   · rw [h'] at h; simp at h
 
@@ -467,7 +467,7 @@ theorem setValues_ok {p : PropRec} {inp : Input} (h : (setValues p inp).2 = .ok 
   rcases setValues_cases p inp with ⟨h', hs⟩ | ⟨vs, h', hs⟩ | ⟨e', h', _⟩ | ⟨dt, n, data, hi, _, h'⟩
   · exact ⟨[], hs, by rw [h']; rfl⟩
   · rw [h'] at h ⊢
-    rcases assignList_result p vs with ⟨cells, hres, hspec, _⟩ | ⟨e', hres, _⟩ | ⟨e', hres, _⟩
+    rcases assignList_result p vs with ⟨cells, hres, hspec, _⟩ | ⟨e', hres, _⟩ | ⟨hres, _⟩
     · exact ⟨cells, by rw [hs, hspec], by rw [hres]⟩
     · rw [hres] at h; simp at h
     · rw [hres] at h; simp at h
